@@ -68,7 +68,11 @@ def payloads(rng, tier):
     for _ in range({"quick": 6, "thorough": 40, "search": 6}[tier]):
         seed = rng.randrange(1 << 30)
         rows = big_rows(seed)
-        v0 = rng.choice([rng.randrange(32768, 65536), rng.randrange(65536), 65535])
+        live = [v for v in (rng.randrange(32768, 65536), rng.randrange(65536), 65535, rng.randrange(32768, 65536), rng.randrange(65536))
+                if any(x >= 0 for x in rows[v])]
+        if not live:
+            continue
+        v0 = live[0]
         n = rng.randint(40, 70)
         w = gen.random_walk(rng, rows, v0, n)
         if len(w) != n:
@@ -199,17 +203,18 @@ _BIG = {}
 
 
 def big_rows(seed):
-    """an order-8 graph: the complete graph without the arcs a fixed arithmetic rule picks (every vertex keeps at least two)"""
+    """an order-8 graph PRODUCED BY GRAPH GENERATION (the domain of C08): the coding graph the library builds for a random vertex
+    mask of density 0.8 / 0.9 and threshold 1 or 2, rebuilt from the seed (the complete graph when that mask leaves nothing)"""
     if seed not in _BIG:
         _BIG.clear()
-        n = 4 ** 8
-        rows = []
-        for v in range(n):
-            r = [(4 * v + j) % n for j in range(4)]
-            drop = [j for j in range(4) if (v * 2654435761 + j * 40503 + seed) % 7 == 0][:2]
-            for j in drop:
-                r[j] = -1
-            rows.append(r)
+        import numpy as np
+        r = np.random.RandomState(seed % (2 ** 32))
+        mask = r.random_sample(4 ** 8) < (0.9 if seed % 2 else 0.8)
+        try:
+            _, acc = dsw.connect_coding_graph(observed_length=8, vertices=mask, threshold=1 + (seed // 2) % 2)
+            rows = np.asarray(acc, dtype=int).tolist()
+        except ValueError:
+            rows = [[(4 * v + j) % 4 ** 8 for j in range(4)] for v in range(4 ** 8)]
         _BIG[seed] = rows
     return _BIG[seed]
 
